@@ -3,31 +3,25 @@ import MythVerif.Proofs.WsQueueTsoTac
 namespace MythVerif.WsqTso
 open MythVerif.Wsq
 
-set_option maxHeartbeats 4000000 in
 theorem f_T_ptr3_po2 (s : St) (p : Pid) (e0 : Elem) (t) : Inv s → s.opc = .po2 t → s.lock = .thief p →
     s.bufT p = [.ptr (s.lb - 1) (some e0)] → s.tpc p = .tp3 e0 →
     Inv (applySto { s with bufT := upd s.bufT p [] } (.ptr (s.lb - 1) (some e0))) := by
   intro h hopc hl h0 h1
   simp only [applySto]
-  cases h; simp only [hopc, ownerLocked, carry, resetting, ownerFlight] at *
-  tso_finish3
+  tso_fastO h hopc [tp3, tp4, po2]
 
-set_option maxHeartbeats 4000000 in
 theorem f_T_ptr3_po3 (s : St) (p : Pid) (e0 : Elem) (t x) : Inv s → s.opc = .po3 t x → s.lock = .thief p →
     s.bufT p = [.ptr (s.lb - 1) (some e0)] → s.tpc p = .tp3 e0 →
     Inv (applySto { s with bufT := upd s.bufT p [] } (.ptr (s.lb - 1) (some e0))) := by
   intro h hopc hl h0 h1
   simp only [applySto]
-  cases h; simp only [hopc, ownerLocked, carry, resetting, ownerFlight] at *
-  tso_finish3
+  tso_fastO h hopc [tp3, tp4, po3]
 
-set_option maxHeartbeats 4000000 in
 theorem f_T_ptr3_pol (s : St) (p : Pid) (e0 : Elem) (t) : Inv s → s.opc = .pol t → s.lock = .thief p →
     s.bufT p = [.ptr (s.lb - 1) (some e0)] → s.tpc p = .tp3 e0 →
     Inv (applySto { s with bufT := upd s.bufT p [] } (.ptr (s.lb - 1) (some e0))) := by
   intro h hopc hl h0 h1
   simp only [applySto]
-  cases h; simp only [hopc, ownerLocked, carry, resetting, ownerFlight] at *
-  tso_finish3
+  tso_fastO h hopc [tp3, tp4, pol]
 
 end MythVerif.WsqTso
